@@ -259,6 +259,9 @@ pub struct K(pub u32);
 /// All host items. Roto names: `emit_<ty>`, `echo_<ty>`, `e`, `eb`, `Tr`, `Z`,
 /// `K`, `mk`, `val`, `peek`, `mkz`, `mkk`, `kval`, `wide_<ty>`.
 pub fn lib() -> Library {
+    let env_a: u64 = std::hint::black_box(MAGIC);
+    let env_b: u64 = std::hint::black_box(MAGIC);
+    let env_c: u64 = std::hint::black_box(MAGIC);
     library! {
         fn emit_u8(x: u8) { log(Ev::Int("u8", x as i128)); }
         fn emit_u16(x: u16) { log(Ev::Int("u16", x as i128)); }
@@ -293,12 +296,14 @@ pub fn lib() -> Library {
         fn wide_i32(x: i32) -> i64 { x as i64 }
         fn wide_bool(x: bool) -> u64 { x as u64 }
 
-        /// effect marker returning its argument
-        fn e(k: i32) -> i32 { log(Ev::Mark(k)); k }
+        /// effect marker returning its argument (a closure that reads its
+        /// environment: a host function object that is not zero-sized, so that
+        /// whoever calls it through a stale address logs and returns garbage)
+        let e = move |k: i32| -> i32 { let k = k ^ (env_a ^ MAGIC) as i32; log(Ev::Mark(k)); k };
         /// effect marker returning the decimal string of `k`
-        fn es(k: i32) -> RotoString { log(Ev::Mark(k)); RotoString::from(k.to_string()) }
+        let es = move |k: i32| -> RotoString { let k = k ^ (env_b ^ MAGIC) as i32; log(Ev::Mark(k)); RotoString::from(k.to_string()) };
         /// effect marker returning `b`
-        fn eb(k: i32, b: bool) -> bool { log(Ev::MarkB(k, b)); b }
+        let eb = move |k: i32, b: bool| -> bool { let k = k ^ (env_c ^ MAGIC) as i32; log(Ev::MarkB(k, b)); b };
 
         #[clone] type Tr = Val<Tr>;
         #[clone] type Z = Val<Z>;
